@@ -78,3 +78,27 @@ def split_state(state, model):
     weights = {k: v for k, v in state.items() if k in wnames}
     rest = {k: v for k, v in state.items() if k not in wnames and not k.startswith("T:")}
     return weights, rest
+
+
+def hostile_rows(model, rng, p=0.5):
+    """Give some output rows of every Linear/Conv2d weight a degenerate range (all positive, all negative, zero,
+    constant, tiny): pruned / gated / biased rows of real checkpoints, which put zero-points and scales at their limits."""
+    if rng.random() > p:
+        return False
+    with torch.no_grad():
+        for m in model.modules():
+            if isinstance(m, (nn.Linear, nn.Conv2d)):
+                w = m.weight
+                for row in range(w.shape[0]):
+                    c = rng.random()
+                    if c < 0.12:
+                        w[row] = w[row].abs() + 0.01
+                    elif c < 0.24:
+                        w[row] = -w[row].abs() - 0.01
+                    elif c < 0.30:
+                        w[row] = 0
+                    elif c < 0.36:
+                        w[row] = 0.25
+                    elif c < 0.40:
+                        w[row] = w[row] * 1e-3
+    return True
